@@ -207,6 +207,47 @@ def oracle(case, res, extra):
                         return
                 except (E.Undefined, OverflowError, KeyError):
                     pass
+    # ---- a DERIVED resource that recalculates an additive resource of the leaves (compile_routine(derived_resources=…)): the derived
+    # value is the leaf's compiled value, and every routine above that does not define the resource itself still carries the sum over
+    # exactly its children's compiled values
+    if case.seed % 3 == 1 and cr.children:
+        from ..real import try_compile
+
+        leaf_names = sorted({rn for path, nd in walk(cr) if path and not nd.children for rn, r in nd.resources.items() if r.type.value == "additive"})
+        typed_otherwise = {rn for _, nd in walk(cr) for rn, r in nd.resources.items() if r.type.value != "additive"}
+        leaf_names = [x for x in leaf_names if x not in typed_otherwise]
+        if leaf_names:
+            rn = rng.choice(leaf_names)
+            bonus = rng.randint(11, 19)
+
+            def calc(routine, backend, _rn=rn, _b=bonus):
+                if not routine.children and _rn in routine.resources:
+                    return backend.as_expression(f"{_b}")
+                return None
+            st_d, r_d = try_compile(case.qref, derived_resources=[{"name": rn, "type": "additive", "calculate": calc}])
+            res.stats["derived_additive_" + st_d.split(":")[0]] += 1
+            if st_d == "ok":
+                top = {n: Fraction(rng.randint(2, 7)) for n in set(cr.input_params) | set(r_d.routine.input_params)}
+                salt = rng.randint(0, 10**6)
+                hist = f"compile_routine(derived_resources=[{{name: {rn}, type: additive, calculate: {bonus} for leaves that have {rn}, else None}}])"
+                for path, node in walk(r_d.routine):
+                    sn = src_node(spec, path)
+                    if sn["repetition"] is not None or not node.children or any(r["name"] == rn for r in sn["resources"]):
+                        continue
+                    kids = [ch.resources[rn].value for ch in node.children.values() if rn in ch.resources]
+                    if not kids or rn not in node.resources:
+                        continue
+                    try:
+                        got = E.sympy_ev(node.resources[rn].value, dict(top), salt)
+                        exp = sum((E.sympy_ev(k_, dict(top), salt) for k_ in kids), Fraction(0))
+                    except (E.Undefined, OverflowError, KeyError):
+                        continue
+                    res.stats["derived_additive_sums_checked"] += 1
+                    feats.add("derived-additive")
+                    if not close(got, exp, True):
+                        res.violation("failing-input", f"with the additive resource {rn} of the leaves derived, {'.'.join(path) or 'root'}.{rn} is not the sum of that resource over its children",
+                                      {"qref": case.qref, "history": hist, "point": top, "derived": {"name": rn, "leaf_value": bonus}}, {"compiled": str(node.resources[rn].value), "value": got}, exp)
+                        return
     if depth_of(spec) >= 3 and feats:
         res.nontrivial.append((case.seed, tuple(sorted(feats))))
     for ft in feats:
@@ -237,4 +278,14 @@ def replay(payload):
         for path, node in walk(res.routine):
             for rn, r in node.resources.items():
                 print(".".join(path) or "root", rn, r.type.value, "=", r.value)
+    d = payload["input"].get("derived")
+    if d:
+        def calc(routine, backend):
+            return backend.as_expression(str(d["leaf_value"])) if (not routine.children and d["name"] in routine.resources) else None
+        st, res = try_compile(payload["input"]["qref"], derived_resources=[{"name": d["name"], "type": "additive", "calculate": calc}])
+        print("compile with the derived resource:", st)
+        if st == "ok":
+            for path, node in walk(res.routine):
+                if d["name"] in node.resources:
+                    print(".".join(path) or "root", d["name"], "=", node.resources[d["name"]].value)
     return 0
